@@ -132,6 +132,21 @@ theorem outputs_depend_only_on_file (tasks tasks' : List (P × B))
     aget (runSched conv σ tasks).tree o = aget (runSched conv σ' tasks').tree o := by
   rw [outputs_as_alone conv tasks hd k σ hv t ht o ho, outputs_as_alone conv tasks' hd' k' σ' hv' t ht' o ho]
 
+/-- **Options are not state.**  If no file conversion changes the options it is given (`(step o t).2 = o`), the loop that
+threads the options through the files is exactly the batch of the per-file function with the SAME options for every
+file — so all the theorems above apply with `conv := fun t => (step opt t).1`, and the caller's options come back unchanged. -/
+theorem options_not_threaded {Opt : Type} (step : Opt → P × B → (R × List (O × T)) × Opt) (opt : Opt)
+    (hpure : ∀ o t, (step o t).2 = o) (tasks : List (P × B)) :
+    sequentialThreaded step opt tasks = (sequential (fun t => (step opt t).1) tasks, opt) := by
+  unfold sequentialThreaded sequential
+  generalize (State.init : State P R O T) = s0
+  induction tasks generalizing s0 with
+  | nil => rfl
+  | cons t r ih =>
+    simp only [List.foldl_cons]
+    rw [hpure opt t]
+    exact ih _
+
 /-- ... and the batch creates nothing else: a path present in the tree is an output path of one of the files -/
 theorem tree_only_outputs (tasks : List (P × B)) (σ : List Ev) (o : O)
     (h : o ∈ akeys (runSched conv σ tasks).tree) : ∃ t ∈ tasks, o ∈ akeys (conv t).2 := by
@@ -202,6 +217,17 @@ theorem f14_schedule_dependent :
     validSched 2 (nOutsOf f14Conv [(1, 1), (2, 2)]) [.start 0, .start 1, .write 1 0, .write 0 0, .finish 0, .finish 1] = true ∧
     aget (runSched f14Conv [.start 0, .start 1, .write 0 0, .write 1 0, .finish 0, .finish 1] [(1, 1), (2, 2)]).tree 0 ≠
     aget (runSched f14Conv [.start 0, .start 1, .write 1 0, .write 0 0, .finish 0, .finish 1] [(1, 1), (2, 2)]).tree 0 := by
+  decide
+
+/-- the hypothesis of `options_not_threaded` cannot be dropped: a conversion that narrows the requested channel set in
+place (options = list of requested channels, a file keeps only those it records and hands the narrowed list on) makes the
+second file's result differ from its result under the original options. -/
+def narrowStep : List Nat → Nat × List Nat → (List Nat × List (Nat × Nat)) × List Nat :=
+  fun req t => ((req.filter (· ∈ t.2), []), req.filter (· ∈ t.2))
+
+theorem options_threaded_counterexample :
+    aget (sequentialThreaded narrowStep [1, 2] [(10, [1]), (20, [1, 2])]).1.results 20 = some [1] ∧
+    aget (sequential (fun t => (narrowStep [1, 2] t).1) [(10, [1]), (20, [1, 2])]).results 20 = some [1, 2] := by
   decide
 
 /-! ## output naming -/
